@@ -26,7 +26,7 @@ ANCHORS = [
     ('vivarium/core/composition.py', ['add_timeline']),
     ('vivarium/core/engine.py', ['Engine.run_for', 'Engine.update']),
 ]
-BUDGET = {'quick': 700, 'thorough': 9000}
+BUDGET = {'quick': 1200, 'thorough': 30000}
 RULE = ('cases: (listed events ≤ 12 with integer times incl. negative/zero/duplicate times and '
         'several events between two ticks, timeline timestep 1..6, 1–3 Engine.update intervals, '
         'initial clock, a permutation of the listing that keeps equal-time events in order) run '
@@ -48,6 +48,22 @@ CASE_TIMEOUT = 20.0
 
 PORTS = ['p', 'q', 'r']
 VARS = ['a', 'b', 'c']
+
+
+def _warm():
+    """import the implementation once in the parent: the forked workers inherit the loaded modules,
+    so the per-case watchdog times the case, not the imports"""
+    try:
+        with warnings.catch_warnings():
+            warnings.simplefilter('ignore')
+            import importlib
+            for m in ['vivarium.core.engine', 'vivarium.processes.timeline', 'vivarium.core.composition']:
+                importlib.import_module(m)
+    except Exception:  # a broken import shows up in run_impl
+        pass
+
+
+_warm()
 
 
 # ------------------------------------------------------------------ generators
